@@ -250,6 +250,41 @@ pub fn run(mut run: Run) -> i32 {
             });
         }
     }
+    // polygons with two or three holes whose bounding boxes overlap although the holes do not: coordinate_position, intersects, contains at every
+    // half-step point of a 15x15 window, for the Polygon, the one-member MultiPolygon and the collection form
+    {
+        let hosts: Vec<Poly> = vec![
+            Poly { shell: vec![(0, 0), (14, 0), (14, 14), (0, 14)], holes: vec![vec![(2, 2), (12, 2), (2, 12)], vec![(11, 11), (6, 11), (11, 6)]] },
+            Poly { shell: vec![(0, 0), (14, 0), (14, 14), (0, 14)], holes: vec![vec![(11, 11), (6, 11), (11, 6)], vec![(2, 2), (12, 2), (2, 12)]] },
+            Poly { shell: vec![(0, 0), (14, 0), (14, 14), (0, 14)], holes: vec![vec![(1, 1), (9, 1), (1, 9)], vec![(13, 13), (5, 13), (13, 5)], vec![(10, 2), (12, 2), (12, 4)]] },
+        ];
+        let nq = 29 * 29;
+        run.stage("holes-with-overlapping-boxes", hosts.len() * nq, |idx, acc| {
+            let h = &hosts[idx / nq];
+            let q = idx % nq;
+            let (kx, ky) = ((q / 29) as i64, (q % 29) as i64);
+            let hp = HP::new(kx as i128, ky as i128, 2);
+            let co = Coord { x: kx as f64 / 2.0, y: ky as f64 / 2.0 };
+            let ag = AG::Polys(vec![h.clone()]);
+            let exp = match locate(&ag, &hp) { I => CoordPos::Inside, B => CoordPos::OnBoundary, _ => CoordPos::Outside };
+            acc.class(format!("overlapping-hole-boxes {:?}", exp));
+            let pg = poly(h);
+            let forms: Vec<(&str, Geometry<f64>)> = vec![
+                ("Polygon", Geometry::Polygon(pg.clone())),
+                ("MultiPolygon", Geometry::MultiPolygon(geo::MultiPolygon(vec![pg.clone()]))),
+                ("GeometryCollection", Geometry::GeometryCollection(geo::GeometryCollection(vec![Geometry::Polygon(pg.clone())]))),
+            ];
+            for (name, g) in forms {
+                acc.evals += 3;
+                let pt = Geometry::Point(geo::Point(co));
+                let got = guard(|| (with_geom!(&g, x => x.coordinate_position(&co)), intersects_concrete(&g, &pt), contains_concrete(&g, &pt)));
+                let want = (exp, exp != CoordPos::Outside, exp == CoordPos::Inside);
+                if got != Ok(want) {
+                    acc.viol(format!("{} with holes whose bounding boxes overlap: coordinate_position / intersects / contains of a point wrong", name), idx, || json!({"polygon": format!("{:?}", pg), "point": [co.x, co.y], "expected": format!("{:?}", want), "got": format!("{:?}", got)}));
+                }
+            }
+        });
+    }
     // integer instantiations with large coordinates: a long diagonal a-c and a point b within a unit or two of it; all products fit i64 (and
     // i32 for its twin), so the answers must be exact: b on / left of / right of the diagonal decided in i128
     {
